@@ -201,7 +201,12 @@ class Eval(RestrictionCapableEval):
             self.prepUnrestrictedCode()
             code = self.ucode
             d = {'_': md, '_vars': md}
+            gitem = None
         d.update(self.globals)
+        if gitem is not None:
+            # the class-level globals bring their own _getitem_; the guard
+            # supplied by the template has to mediate item access
+            d['_getitem_'] = gitem
         for name in self.used:
             __traceback_info__ = name
             try:
